@@ -414,9 +414,14 @@ def match_known(prop_id, entry, case, failure):
 # --------------------------------------------------------------------------- shrinking
 
 
-def shrink(case, still_fails, budget=300):
-    """Greedy structural delta debugging over JSON-like cases."""
+def shrink(case, still_fails, budget=300, max_seconds=30.0):
+    """Greedy structural delta debugging over JSON-like cases.
+
+    Shrinking is a convenience, never a duty: a changed tree can make one evaluation of a candidate arbitrarily slow
+    (a seeded change made `fetchmany()` allocate a 10**9-slot batch, eight seconds a call), so besides the number of
+    tries there is a wall-clock cap after which the smallest case found so far is returned."""
     tries = 0
+    t_end = time.time() + max_seconds
 
     def candidates(x):
         if isinstance(x, list):
@@ -457,7 +462,8 @@ def shrink(case, still_fails, budget=300):
         progress = False
         for c in candidates(cur):
             tries += 1
-            if tries >= budget:
+            if tries >= budget or time.time() > t_end:
+                tries = budget
                 break
             try:
                 if still_fails(c):
